@@ -164,4 +164,22 @@ PROPS = {
         "level_text": "Exploration: every shipped diagram plus tens of thousands of derived diagrams per run (millions of resolution states), each judged by an independent combinatorial model built from the raw PD code. Right level: input property with an exact, cheap oracle.",
         "level_note": "Trusts the PD conventions of the Knot Atlas as encoded in the oracle (self-tested against the published trefoil data); inputs sampled.",
     },
+    "C01": {
+        "budget_s": {"quick": 150, "thorough": 2400},
+        "floor": {"quick": 3000, "thorough": 60000},
+        "rule": "diagrams: empty link, kinked unknots, table PD codes with <= 8 (quick) / 10 crossings incl. multi-component links, optionally transformed (R1 kinks, split union, connected sum, switched crossings = mixed X/Xm data, mirror, "
+                "orientation reversal, relabelling, crossing permutation) x rings i64, BigInt, Ratio<i64>, FF2, FF<2>, FF<3> x (h,t) in {(0,0),(1,0),(0,1),(2,0),(1,1),(2,3),(-1,2),(3,-2)} (reduced mod p for fields) x reduced (t=0) / unreduced "
+                "x build configuration (default; explicit crossing absorption orders fed one crossing at a time through the public builder; auto_deloop/auto_elim on/off) x rayon pools of 1,2,4,16 threads; "
+                "oracle: definition-level cube of resolutions over Z built from the raw PD code, homology by own unit-pivot cancellation + textbook SNF (mod p for fields): rank and invariant factors per degree, and for h=t=0 the bigraded "
+                "table by both library routes; non-trivial = >= 3 crossings or >= 2 components or (h,t) != (0,0); distinct = hash(PD, ring, h, t, reduced, order, policy, threads)",
+        "assumptions": COMMON_ASSUME + [
+            "oracle-checked diagrams are bounded by 10 crossings; larger diagrams are covered only through the relations of C02/C03",
+            "polynomial parameters (H,T) are covered by composition with C05 (specialisation commutes) rather than by a polynomial oracle",
+            "diagrams with over-only components are excluded here (their orientation is a free choice; C18/C04 cover them)",
+            "the cube oracle's conventions are pinned by the published Khovanov homology of 3_1 in `vh selftest`",
+        ],
+        "technique": "reference-model monitor: real Khovanov computations (all build orders / policies / thread counts reachable through the public API) compared with an independent definition-level cube-of-resolutions oracle",
+        "level_text": "Exploration: thousands (quick) to hundreds of thousands of (diagram, ring, (h,t), variant, configuration) tuples per run, each compared with a definition-level oracle that shares no code with the library. Right level: the property is an input x configuration x schedule statement and the oracle is exact for the bounded diagrams it can afford.",
+        "level_note": "Trusts the own cube construction (self-tested against published data) and SNF; bounded by diagram size.",
+    },
 }
